@@ -5,6 +5,8 @@ The real /repo is never modified; evidence/replays of these runs go to .work/alt
 import json, os, re, subprocess, sys, time, shutil
 from pathlib import Path
 V = Path(__file__).resolve().parents[1]
+suite = '--suite' in sys.argv
+sys.argv = [a for a in sys.argv if a != '--suite']
 sid = sys.argv[1]
 sd = V / 'seeded' / sid
 meta = json.loads((sd / 'meta.json').read_text())
@@ -20,6 +22,10 @@ try:
         res['demo_with_change_rc'] = r.returncode
         r0 = subprocess.run(['/venv/bin/python', str(demo)], env=dict(os.environ, PYTHONPATH='/repo', PYTHONDONTWRITEBYTECODE='1'), capture_output=True, text=True)
         res['demo_unchanged_rc'] = r0.returncode
+    if suite:
+        r = subprocess.run([str(V / 'tools' / 'baseline_check.py'), str(wt)], capture_output=True, text=True)
+        res['suite'] = {'rc': r.returncode, 'out': r.stdout.strip().splitlines()[-3:]}
+        print('suite', res['suite'])
     for pid in props:
         t0 = time.time()
         r = subprocess.run(['./check', pid, 'quick'], cwd=V, env=dict(os.environ, VERIF_REPO=str(wt)), capture_output=True, text=True)
@@ -33,4 +39,7 @@ finally:
     subprocess.run(['git', '-C', '/repo', 'worktree', 'remove', '--force', str(wt)])
     # bring Generated/*.v back in sync with the real tree
     subprocess.run(['/venv/bin/python', 'tools/regen.py'], cwd=V, env=dict(os.environ, PYTHONPATH='/repo', VERIF_REPO='/repo'), capture_output=True)
+old = json.loads((sd / 'result.json').read_text()) if (sd / 'result.json').exists() else {}
+if 'suite' in old and 'suite' not in res:
+    res['suite'] = old['suite']
 (sd / 'result.json').write_text(json.dumps(res, indent=1))
